@@ -30,6 +30,9 @@ import (
 type readerWrap struct {
 	inner Value
 	limit *Term // io.LimitReader: at most this many bytes are readable (nil: no limit)
+	// consumed: bytes already read through this LimitReader (stream readers: a limiter that lives as
+	// long as the connection has a cumulative budget)
+	consumed *Term
 }
 
 func (r *readerWrap) implements(it *types.Interface) bool { return true }
@@ -65,6 +68,7 @@ func structFieldIndex(t types.Type, name string) int {
 func (m *Machine) ioResolve(v Value, field string) (Value, int) {
 	depth := 0
 	m.lastIOLimit = nil
+	m.lastIOWraps = nil
 	for i := 0; i < 8; i++ {
 		iv, ok := v.(IfaceVal)
 		if !ok || iv.typ == nil {
@@ -72,6 +76,7 @@ func (m *Machine) ioResolve(v Value, field string) (Value, int) {
 		}
 		if w, ok := iv.v.(*readerWrap); ok {
 			if w.limit != nil {
+				m.lastIOWraps = append(m.lastIOWraps, w)
 				if m.lastIOLimit == nil {
 					m.lastIOLimit = w.limit
 				} else {
@@ -280,8 +285,17 @@ func init() {
 			if br := m.bytesReaderOf(inner); br != nil {
 				return m.nativePtr(&jsonOneShot{data: br.data, limit: m.lastIOLimit}, "jsononeshot"), stNext
 			}
-			if streamOf(inner) != nil {
+			if s := streamOf(inner); s != nil {
 				c.args[0] = inner
+				wraps := m.lastIOWraps
+				for _, w := range wraps {
+					s.limiters = append(s.limiters, w)
+				}
+				v, st := prevNewDecoder(m, g, c)
+				if d, ok := m.nativeOf(v, "NewDecoder").(*jsonDecoder); ok {
+					d.limiters = wraps
+				}
+				return v, st
 			}
 		}
 		return prevNewDecoder(m, g, c)
